@@ -84,17 +84,48 @@ def _virtual_time() -> float:
     return loop.time() if loop is not None else 0.0
 
 
+class _Abort(BaseException):
+    """Unwinds a harness thread whose world is being torn down."""
+
+
+class _Th:
+    def __init__(self) -> None:
+        import threading
+
+        self.sem = threading.Semaphore(0)
+        self.state = "running"  # running | blocked | finished
+        self.result: Any = None
+        self.abort = False
+        self.thread: Any = None
+
+
 class FakeExecutor(cf.Executor):
-    """submit() returns a Future that only the explorer completes (no threads)."""
+    """submit() returns a Future that only the explorer completes.
+
+    Default mode: no threads; the submitted callable runs atomically when the explorer fires
+    ('exec', i). Mode 'threads' (scenario key executor='threads'): the callable runs on a real
+    thread, one thread at a time under a strict baton hand-off - ('exec_start', i) lets it run
+    until the task function blocks inside its body, ('exec', i) lets it finish - so two sync
+    executions really overlap (both are inside their function at once) while every step stays
+    an explorer decision."""
 
     def __init__(self, world: "RecvWorld") -> None:
+        import threading
+
         self.world = world
         self.pending: Dict[int, Tuple[cf.Future, Any, Any, Any]] = {}
+        self.threads: Dict[int, _Th] = {}
+        self.main_sem = threading.Semaphore(0)
+        self.threaded = world.sc.get("executor") == "threads"
 
     def submit(self, fn, /, *args, **kwargs):  # type: ignore[override]
         f: cf.Future = cf.Future()
         # args = (target, message_args, kwargs) of taskiq.receiver.receiver._run_sync
-        idx = args[1][0] if len(args) > 1 and args[1] else -1
+        idx = -1
+        for a in args:
+            if isinstance(a, (list, tuple)) and a and isinstance(a[0], int):
+                idx = a[0]
+                break
         self.pending[idx] = (f, fn, args, kwargs)
         self.world.emit("SUBMIT", idx)
         if self.world.spec(idx)["body"] == "immediate":
@@ -104,11 +135,20 @@ class FakeExecutor(cf.Executor):
     def enabled(self) -> List[Any]:
         out = []
         for idx, (f, _, _, _) in sorted(self.pending.items()):
-            if not f.done() and self.world.spec(idx)["outcome"] != "never":
+            if f.done():
+                continue
+            th = self.threads.get(idx)
+            if self.threaded and th is None:
+                out.append(("exec_start", idx))
+            elif self.world.spec(idx)["outcome"] != "never" and (th is None or th.state == "blocked"):
                 out.append(("exec", idx))
         return out
 
+    # ---- default mode --------------------------------------------------------------
     def complete(self, idx: int) -> None:
+        if idx in self.threads:
+            self._resume(idx)
+            return
         f, fn, args, kwargs = self.pending[idx]
         if not f.set_running_or_notify_cancel():
             return
@@ -118,6 +158,71 @@ class FakeExecutor(cf.Executor):
             f.set_exception(exc)
         else:
             f.set_result(r)
+
+    # ---- threads mode ----------------------------------------------------------------
+    def start(self, idx: int) -> None:
+        import threading
+
+        f, fn, args, kwargs = self.pending[idx]
+        if not f.set_running_or_notify_cancel():
+            return
+        th = _Th()
+        self.threads[idx] = th
+
+        def run() -> None:
+            try:
+                th.result = ("ok", fn(*args, **kwargs))
+            except _Abort:
+                th.result = ("abort", None)
+            except BaseException as exc:  # what a real pool worker does
+                th.result = ("exc", exc)
+            th.state = "finished"
+            self.main_sem.release()
+
+        th.thread = threading.Thread(target=run, daemon=True, name=f"harness-sync-{idx}")
+        th.thread.start()
+        self.main_sem.acquire()
+        self._deliver(idx)
+
+    def block(self, idx: int) -> None:
+        """Called on the worker thread from inside the task function: wait for ('exec', idx)."""
+        th = self.threads.get(idx)
+        if th is None:
+            return  # default mode: the body runs atomically
+        th.state = "blocked"
+        self.main_sem.release()
+        th.sem.acquire()
+        th.state = "running"
+        if th.abort:
+            raise _Abort()
+
+    def _resume(self, idx: int) -> None:
+        th = self.threads[idx]
+        if th.state != "blocked":
+            raise HarnessError(f"sync execution {idx} is not blocked")
+        th.sem.release()
+        self.main_sem.acquire()
+        self._deliver(idx)
+
+    def _deliver(self, idx: int) -> None:
+        th = self.threads[idx]
+        if th.state != "finished":
+            return
+        th.thread.join()
+        f = self.pending[idx][0]
+        kind, val = th.result
+        if kind == "ok":
+            f.set_result(val)
+        elif kind == "exc":
+            f.set_exception(val)
+
+    def abort_all(self) -> None:
+        for th in self.threads.values():
+            if th.state == "blocked":
+                th.abort = True
+                th.sem.release()
+                self.main_sem.acquire()
+                th.thread.join()
 
 
 class RecvWorld(World):
@@ -344,6 +449,7 @@ class RecvWorld(World):
 
         def t_sync(i):  # noqa: ANN001
             world.emit("START", i)
+            world.executor.block(i)  # threads mode: stay inside the function until ('exec', i)
             return world._finish_body(i, NoResultError)
 
         async def t_annot(i, cur: PlainThing = None, n: int = 0):  # type: ignore[assignment]  # noqa: ANN001
@@ -499,11 +605,16 @@ class RecvWorld(World):
             self.finish_event.set()
         elif ev[0] == "exec":
             self.executor.complete(ev[1])
+        elif ev[0] == "exec_start":
+            self.executor.start(ev[1])
         else:
             raise HarnessError(f"unknown event {ev!r}")
 
     def terminal(self) -> bool:
         return self.listen_task.done() or self.loop.killed is not None
+
+    def extra_teardown(self) -> None:
+        self.executor.abort_all()
 
     # ------------------------------------------------------------------ monitors
     def on_event(self, ev: Tuple[Any, ...]) -> None:
@@ -660,6 +771,7 @@ class RecvWorld(World):
                 "R",
                 None if sem is None else (sem._value, len(sem._waiters or ())),
                 (v.sem_prefetch._value, len(v.sem_prefetch._waiters or ())),
+                self._hidden_state(v),
             )
         if isinstance(v, TaskiqMessage):
             return ("TM", v.task_id, tuple(sorted((k, repr(x)) for k, x in v.labels.items())))
@@ -668,6 +780,37 @@ class RecvWorld(World):
         if isinstance(v, bytes) and v == b"-1":
             return "QUEUE_DONE"
         return NotImplemented
+
+    _R_SKIP = frozenset({
+        "broker", "executor", "sem", "sem_prefetch", "on_exit", "task_signatures", "task_hints", "dependency_graphs",
+        "known_tasks", "listen_queue",
+    })
+
+    def _hidden_state(self, recv: Any) -> Any:
+        """Whatever else the receiver (and its broker) remembers between messages - a counter, a flag, a
+        'current message' attribute, a list of open contexts: part of the fingerprint, so that two
+        histories are merged only if the implementation itself cannot tell them apart. Computed once
+        per fingerprint."""
+        if self._hidden_cache is not None:
+            return self._hidden_cache
+        from mc.send_world import scalar_attrs
+
+        out = []
+        for k, x in sorted(vars(recv).items()):
+            if k in self._R_SKIP:
+                continue
+            out.append((k, self.abs_val(x, 2)))
+        self._hidden_cache = (tuple(out), scalar_attrs(recv.broker))
+        return self._hidden_cache
+
+    _hidden_cache: Any = None
+
+    def fingerprint(self) -> Any:
+        self._hidden_cache = None
+        try:
+            return super().fingerprint()
+        finally:
+            self._hidden_cache = None
 
     def task_name(self, task: "asyncio.Task[Any]") -> Any:
         coro = task.get_coro()
